@@ -240,6 +240,30 @@ def _while_idioms(stmts: list) -> list:
     return res
 
 
+def _emptiness_form(c: Term) -> Term:
+    """`if xs` / `if set(xs)` / `if list(xs)` / `if sorted(xs)` / `if frozenset(xs)` ask the same question: is there an element"""
+    neg = False
+    inner = c
+    if inner[0] == "not" and len(inner) == 2 and is_term(inner[1]):
+        neg, inner = True, inner[1]
+    if inner[0] in ("truth", "nonempty") and len(inner) == 2 and is_term(inner[1]):
+        t = inner[1]
+        ch = False
+        while True:
+            if t[0] == "setof" and len(t) >= 2 and is_term(t[1]):
+                t, ch = t[1], True
+            elif t[0] == "call" and t[1] in ("set", "frozenset", "list", "tuple", "sorted", "reversed") and len(t[2]) == 1 and is_term(t[2][0]):
+                t, ch = t[2][0], True
+            elif t[0] == "comp" and t[1] in ("list", "gen") and len(t) > 3:
+                t, ch = ("comp", "set") + tuple(t[2:]), True
+            else:
+                break
+        if ch:
+            r = (inner[0], t)
+            return ("not", r) if neg else r
+    return c
+
+
 _rab_cache: dict = {}
 
 
@@ -2893,7 +2917,7 @@ class Evaluator:
         for c in conds:
             if c == FALSE:
                 return True
-            c = alpha_normalise_bound(c)
+            c = alpha_normalise_bound(_emptiness_form(c))
             if c[0] == "not":
                 neg.add(c[1])
             else:
